@@ -29,6 +29,19 @@ _ValueT = TypeVar("_ValueT")
 # =============================================================================
 
 
+def _safe_details(details_func: Callable[..., str | None], *args: Any, **kwargs: Any) -> str | None:
+    """Build the details text of a journal entry.
+
+    Describing the objects involved must never change what the journaled operation
+    does: a ``repr`` that raises (e.g. a tensor that cannot be materialized) is
+    reported in the details instead of being propagated to the caller.
+    """
+    try:
+        return details_func(*args, **kwargs)
+    except Exception as e:  # pylint: disable=broad-exception-caught
+        return f"<details unavailable: {type(e).__name__}: {e}>"
+
+
 def _init_wrapper(
     journal: _journaling.Journal,
     original_init: Callable[Concatenate[_SelfT, _P], None],
@@ -46,7 +59,7 @@ def _init_wrapper(
     @functools.wraps(original_init)
     def wrapper(self: _SelfT, *args: _P.args, **kwargs: _P.kwargs) -> None:
         original_init(self, *args, **kwargs)
-        journal.record(self, "init", details=details_func(self))
+        journal.record(self, "init", details=_safe_details(details_func, self))
 
     return wrapper
 
@@ -69,7 +82,9 @@ def _setter_wrapper(
     @functools.wraps(original_setter)
     def wrapper(self: _SelfT, value: _ValueT) -> None:
         old_value = getattr(self, property_name)
-        journal.record(self, operation, details=f"{old_value!r} -> {value!r}")
+        journal.record(
+            self, operation, details=_safe_details(lambda: f"{old_value!r} -> {value!r}")
+        )
         original_setter(self, value)
 
     return wrapper
@@ -93,7 +108,9 @@ def _method_wrapper(
 
     @functools.wraps(original_method)
     def wrapper(self: _SelfT, *args: _P.args, **kwargs: _P.kwargs) -> _T:
-        journal.record(self, operation, details=details_func(self, *args, **kwargs))
+        journal.record(
+            self, operation, details=_safe_details(details_func, self, *args, **kwargs)
+        )
         return original_method(self, *args, **kwargs)
 
     return wrapper
@@ -120,7 +137,9 @@ def _container_method_wrapper(
     @functools.wraps(original_method)
     def wrapper(self: _SelfT, *args: _P.args, **kwargs: _P.kwargs) -> _T:
         target = getattr(self, target_attr)
-        journal.record(target, operation, details=details_func(self, *args, **kwargs))
+        journal.record(
+            target, operation, details=_safe_details(details_func, self, *args, **kwargs)
+        )
         return original_method(self, *args, **kwargs)
 
     return wrapper
